@@ -57,8 +57,8 @@ def main(tier):
     wd = core.workdir(PROP)
     jobs = []
     for name, consts, budget in CONFIGS[tier]:
-        progs = passes.enumerate_programs(rep, name, passes.ast_cfg(*consts), wd)
-        rep.cov.setdefault('enumerated_programs', {})[name] = len(progs)
+        progs = passes.enumerate_programs(rep, name, passes.ast_cfg(*consts), wd, budget=budget)
+        rep.cov.setdefault('enumerated_programs', {})[name] = progs.total
         if len(progs) > budget:
             progs = rng.sample(progs, budget)
             rep.cov['exhaustive'] = False
